@@ -701,6 +701,24 @@ func (w *world) block(n int, viaPool bool) bool {
 		bs.Explicit, bs.Txs = true, txgen.Txs(items)
 	}
 	block, parts, err := P.r.Propose(bs)
+	if _, panicked := err.(*txgen.ProposePanic); panicked && bs.Explicit {
+		// the list holds transaction objects no node has looked at yet. Second
+		// opinion on the SAME instance and state: hash-identical objects that
+		// have passed the basic check of this node (what AddTx runs first; every
+		// transaction of a production proposer has). If the block can be built
+		// from those, the outcome of executing a transaction depends on what is
+		// cached inside its object; if not, the generator is wrong (harness).
+		var checked types.Txs
+		for _, it := range items {
+			tx, _ := txgen.CloneTx(it.Tx)
+			kernel.Try(func() { P.r.Chain.App.CheckTx(tx, true) })
+			checked = append(checked, tx)
+		}
+		if _, _, err2 := P.r.Propose(txgen.BlockSpec{Explicit: true, Txs: checked, Time: bs.Time}); err2 == nil {
+			c.Violate("diverge", "diverge/execution-depends-on-tx-object-cache", "height %d: the proposer cannot execute a list of valid transactions whose objects have not passed its basic check (%v) and builds the block from hash-identical objects that have: the result of executing a transaction depends on values cached in the object; block: %s", P.r.Height()+1, err, describe(items))
+			return false
+		}
+	}
 	if err != nil {
 		c.HarnessTrouble("propose (%d txs, %s: %s): %v", len(items), path, notes(items), err)
 		return false
